@@ -400,6 +400,24 @@ fn run_case(line: &str) -> Result<String, String> {
                 Err(e) => format!("ERR {}", print_err(&e)),
             })
         }
+        "filterparams" => {
+            // filterparams <src> B( ... ): params left after ProgramDetails::filter_from_bindings
+            let src = unhex_str(t.next()?)?;
+            let binds = parse_binds(&mut t)?;
+            let prog = match rscel::Program::from_source(&src) {
+                Ok(p) => p,
+                Err(e) => return Ok(format!("CERR {}", print_err(&e))),
+            };
+            let mut b = rscel::BindContext::new();
+            for (k, v) in binds.into_iter() {
+                b.bind_param(&k, v);
+            }
+            let mut d = prog.into_details();
+            d.filter_from_bindings(&b);
+            let mut ps: Vec<String> = d.params().iter().map(|x| x.to_string()).collect();
+            ps.sort();
+            Ok(format!("PARAMS( {} )", ps.iter().map(|x| hex(x.as_bytes())).collect::<Vec<_>>().join(" ")))
+        }
         "compile" => {
             // compile <src> -> resolved bytecode and reported params
             let src = match parse_value(&mut t)? {
